@@ -1,0 +1,147 @@
+//go:build verif
+
+package fontscan
+
+// Entry points used by the verification harness living outside of this repository.
+// This file is only compiled with the `verif` build tag and only adds code.
+
+import (
+	"io"
+	"sync"
+
+	"github.com/go-text/typesetting/font"
+	ot "github.com/go-text/typesetting/font/opentype"
+)
+
+// VerifCoveragesFromCmap exposes newCoveragesFromCmap.
+func VerifCoveragesFromCmap(cmap font.Cmap) (RuneSet, ScriptSet) {
+	rs, ss, _ := newCoveragesFromCmap(cmap, nil)
+	return rs, ss
+}
+
+// VerifFootprintFromFont exposes newFootprintFromFont.
+func VerifFootprintFromFont(f *font.Font, location Location, md font.Description) Footprint {
+	return newFootprintFromFont(f, location, md)
+}
+
+// VerifFootprintFromLoader exposes newFootprintFromLoader (the path used when scanning files).
+func VerifFootprintFromLoader(ld *ot.Loader) (Footprint, error) {
+	fp, _, err := newFootprintFromLoader(ld, false, scanBuffer{})
+	return fp, err
+}
+
+// VerifScriptsFromRanges exposes scriptsFromRanges.
+func VerifScriptsFromRanges(ranges [][2]rune) ScriptSet { return scriptsFromRanges(ranges) }
+
+// VerifIncludes exposes RuneSet.includes.
+func (rs RuneSet) VerifIncludes(other RuneSet) bool { return rs.includes(other) }
+
+// VerifSerialize exposes RuneSet.serialize.
+func (rs RuneSet) VerifSerialize() []byte { return rs.serialize() }
+
+// VerifDeserializeRuneSet exposes RuneSet.deserializeFrom.
+func VerifDeserializeRuneSet(data []byte) (RuneSet, int, error) {
+	var rs RuneSet
+	n, err := rs.deserializeFrom(data)
+	return rs, n, err
+}
+
+// VerifPages returns the page references of the set, in storage order.
+func (rs RuneSet) VerifPages() []uint16 {
+	out := make([]uint16, len(rs))
+	for i, p := range rs {
+		out[i] = p.ref
+	}
+	return out
+}
+
+// VerifMatcher exposes fontSet.retainsBestMatches, with reusable storage.
+type VerifMatcher struct {
+	fs    fontSet
+	cands []int
+}
+
+// Match narrows the candidates (given by their aspects) and returns the retained indices.
+// The returned slice is only valid until the next call.
+func (m *VerifMatcher) Match(aspects []font.Aspect, query font.Aspect) []int {
+	m.fs = m.fs[:0]
+	m.cands = m.cands[:0]
+	for i, a := range aspects {
+		m.fs = append(m.fs, Footprint{Aspect: a})
+		m.cands = append(m.cands, i)
+	}
+	return m.fs.retainsBestMatches(m.cands, query)
+}
+
+// VerifFile is the exported image of one entry of the system font index.
+type VerifFile struct {
+	Path       string
+	ModTime    int64
+	Footprints []Footprint
+}
+
+// VerifIndex wraps a systemFontsIndex.
+type VerifIndex struct{ index systemFontsIndex }
+
+// VerifNewIndex builds an index from its exported image.
+func VerifNewIndex(files []VerifFile) VerifIndex {
+	var out systemFontsIndex
+	for _, f := range files {
+		out = append(out, fileFootprints{path: f.Path, modTime: timeStamp(f.ModTime), footprints: f.Footprints})
+	}
+	return VerifIndex{out}
+}
+
+// Files returns the exported image of the index.
+func (vi VerifIndex) Files() []VerifFile {
+	var out []VerifFile
+	for _, f := range vi.index {
+		out = append(out, VerifFile{Path: f.path, ModTime: int64(f.modTime), Footprints: f.footprints})
+	}
+	return out
+}
+
+// IsNil reports whether the underlying slice is nil.
+func (vi VerifIndex) IsNil() bool { return vi.index == nil }
+
+// Flatten exposes systemFontsIndex.flatten.
+func (vi VerifIndex) Flatten() []Footprint { return vi.index.flatten() }
+
+// SerializeTo exposes systemFontsIndex.serializeTo.
+func (vi VerifIndex) SerializeTo(w io.Writer) error { return vi.index.serializeTo(w) }
+
+// SerializeToFile exposes systemFontsIndex.serializeToFile.
+func (vi VerifIndex) SerializeToFile(path string) error { return vi.index.serializeToFile(path) }
+
+// VerifDeserializeIndex exposes deserializeIndex.
+func VerifDeserializeIndex(r io.Reader) (VerifIndex, error) {
+	idx, err := deserializeIndex(r)
+	return VerifIndex{idx}, err
+}
+
+// VerifDeserializeIndexFile exposes deserializeIndexFile.
+func VerifDeserializeIndexFile(path string) (VerifIndex, error) {
+	idx, err := deserializeIndexFile(path)
+	return VerifIndex{idx}, err
+}
+
+// VerifScan exposes scanFontFootprints.
+func VerifScan(logger Logger, current VerifIndex, dirs ...string) (VerifIndex, error) {
+	idx, err := scanFontFootprints(logger, current.index, dirs...)
+	return VerifIndex{idx}, err
+}
+
+// VerifRefresh exposes refreshSystemFontsIndex (uses DefaultFontDirectories, hence the environment).
+func VerifRefresh(logger Logger, cachePath string) (VerifIndex, error) {
+	idx, err := refreshSystemFontsIndex(logger, cachePath)
+	return VerifIndex{idx}, err
+}
+
+// VerifResetSystemFonts forgets the process wide system font index.
+func VerifResetSystemFonts() {
+	systemFonts = nil
+	initSystemFontsOnce = sync.Once{}
+}
+
+// VerifIsUserProvided exposes Footprint.isUserProvided.
+func (fp Footprint) VerifIsUserProvided() bool { return fp.isUserProvided }
